@@ -249,7 +249,7 @@ IMG = ["![alt](i.png)", "![*em* `c` alt](p/q.png \"T\")", "![](i.png)", "![a](<s
        "![a](x%2Fy.png)", "![a](ünï/ö.png)", "![a](C:/dir/z.png)", "![a](file:///tmp/../x.png)", "![a](<./sp ace/../i.png>)"]
 OL = ["{style=lower-alpha}\n1. a\n2. b", "{style=upper-roman start=4}\n4. a\n5. b", "{style=nosuch}\n1) a", "- x\n\n  {style=upper-alpha}\n  3. y", "1. a\n2. b", "0. a\n1. b", "7) a\n8) b", "007. a", "123456789. a", "1. a\n\n   1) b\n   2) c", "- x\n\n  0) y", "> 3. q", "2. a\n\n3) b", "* a\n+ b\n- c", "- a\n  - b\n    * c"]
 ALIGN = [":--", "--:", ":-:", "---"]
-INFO = ["python", "c", "text", "unknownlang", "python extra", "  py", "c++", "", "~x", "Python"]
+INFO = ["python", "c", "text", "unknownlang", "python extra", "  py", "c++", "", "~x", "Python", "python\ttitle", "c\t \tlinenos", "py\u00a0x", "c\u3000wide", "text\x0cff", "py  two  blanks", "\tpy"]
 
 
 def matrices():
